@@ -455,3 +455,124 @@ def strip_paren(n: N) -> N:
     while n.k == "paren" and n.ops:
         n = n.ops[0]
     return n
+
+
+# ---------------------------------------------------------------------------
+# reading a canonically rendered grammar back (lexemes separated by blanks): used by replay / one-off runs
+# ---------------------------------------------------------------------------
+
+def _unesc_sym(lexeme: str) -> str:
+    return lexeme[1:-1].replace("\\'", "'").replace("\\\\", "\\")
+
+
+def parse_canonical(text: str) -> Grammar:
+    import re
+    lex = re.findall(r"'(?:\\.|[^'\\])*'|[^\s]+", text)
+    pos = [0]
+
+    def cur():
+        return lex[pos[0]] if pos[0] < len(lex) else None
+
+    def eat():
+        t = lex[pos[0]]
+        pos[0] += 1
+        return t
+
+    def atom():
+        t = eat()
+        if t == "(":
+            if cur() == ")":
+                eat()
+                return N("paren")
+            x = p_alt()
+            assert eat() == ")"
+            return N("paren", [x])
+        if t == "[":
+            x = p_alt()
+            assert eat() == "]"
+            return N("opt", [x])
+        if t.startswith("'"):
+            return sym(_unesc_sym(t))
+        if t == "^":
+            return elide()
+        if t == "~":
+            return commit()
+        if t == "&":
+            return ret()
+        if t[0] == "?":
+            return pred(t[1:] if t[1:] == "t" else int(t[1:]))
+        if t[0] == "#":
+            return action(int(t[1:]))
+        if t[0] == "!":
+            return assertion(int(t[1:]))
+        if t[0] == "@":
+            return rename(t[1:])
+        if t[0] == "<" and t[1:].isdigit():
+            return marker(int(t[1:]))
+        m = re.fullmatch(r"(\d*)>(\w*)", t)
+        if m:
+            return create(int(m.group(1)) if m.group(1) else None, m.group(2) or None)
+        return name(t)
+
+    def postfix():
+        x = atom()
+        while cur() in ("*", "+"):
+            x = N("star" if eat() == "*" else "plus", [x])
+        return x
+
+    def p_concat():
+        ops = []
+        while cur() not in (None, "|", "/", ")", "]", ";"):
+            ops.append(postfix())
+        if len(ops) == 1:
+            return ops[0]
+        return N("concat", ops)
+
+    def p_choice():
+        ops = [p_concat()]
+        while cur() == "/":
+            eat()
+            ops.append(p_concat())
+        return ops[0] if len(ops) == 1 else N("choice", ops)
+
+    def p_alt():
+        ops = [p_choice()]
+        while cur() == "|":
+            eat()
+            ops.append(p_choice())
+        return ops[0] if len(ops) == 1 else N("alt", ops)
+
+    decls = []
+    while cur() is not None:
+        t = eat()
+        if t == "token":
+            toks = []
+            while cur() != ";":
+                nm = eat()
+                s = None
+                if cur() == "=":
+                    eat()
+                    s = _unesc_sym(eat())
+                toks.append((nm, s))
+            eat()
+            decls.append(("token", toks))
+        elif t in ("skip", "right", "part"):
+            refs = []
+            while cur() != ";":
+                refs.append(eat())
+            eat()
+            decls.append((t, refs))
+        elif t == "start":
+            decls.append(("start", eat()))
+            assert eat() == ";"
+        else:
+            elided = False
+            if cur() == "^":
+                eat()
+                elided = True
+            assert eat() == ":", (t, cur())
+            rx = None if cur() == ";" else p_alt()
+            assert eat() == ";"
+            decls.append(("rule", Rule(t, rx, elided)))
+    g = Grammar(decls)
+    return g
